@@ -82,8 +82,26 @@ fn expr(depth: u32) -> BoxedStrategy<Expr> {
         b(inner.clone()).prop_map(|e| Expr::Filter(e, "list".into(), vec![])),
         (b(inner.clone()), crate::runner::one_of(&["defined", "none", "string", "number", "odd", "true", "sequence"])).prop_map(|(e, t)| Expr::Test(e, t.to_string(), vec![], false)),
     ];
+    // left-leaning chains of one arithmetic operator over operands where regrouping shows:
+    // floats at and beyond 2^53, integers at the 64- and 128-bit boundaries, small steps
+    let chain_leaf = prop_oneof![
+        3 => crate::runner::one_of(&["9007199254740992.0", "9007199254740994.0", "1e16", "4503599627370496.5", "0.1", "0.2", "1e308", "1.5"])
+            .prop_map(|s| Expr::Float(s.to_string())),
+        4 => crate::runner::one_of(&[1i128, -1, 2, -2, 3, 1 << 53, (1 << 63) - 1, -(1 << 63), (1 << 64) - 1, i128::MAX, -i128::MAX, i128::MAX - 1]).prop_map(Expr::int),
+        1 => Just(Expr::Int("170141183460469231731687303715884105728".into())),
+        1 => crate::runner::one_of(&["a", "", "1"]).prop_map(Expr::str),
+    ];
+    let chain = (crate::runner::one_of(&[BinOp::Add, BinOp::Add, BinOp::Sub, BinOp::Mul, BinOp::Concat]), prop::collection::vec(chain_leaf, 3..6)).prop_map(|(op, leaves)| {
+        let mut it = leaves.into_iter();
+        let mut e = it.next().unwrap();
+        for l in it {
+            e = Expr::Bin(op, Box::new(e), Box::new(l));
+        }
+        e
+    });
     prop_oneof![
         4 => lit(),
+        2 => chain,
         6 => (binop, b(inner.clone()), b(inner.clone())).prop_map(|(op, l, r)| Expr::Bin(op, l, r)),
         3 => (b(inner.clone()), prop::collection::vec((cmpop, inner.clone()), 1..4)).prop_map(|(f, r)| Expr::Cmp(f, r)),
         1 => b(inner.clone()).prop_map(Expr::Not),
